@@ -409,6 +409,12 @@ FIXED = [
     [[10, [("dim", "Q", [("num", "1"), ("num", "2"), ("num", "3")])]], [20, [("let", "Q", [("num", "1"), ("num", "2"), ("num", "3")], ("num", "7")), ("let", "Q", [("num", "0"), ("num", "1"), ("num", "0")], ("num", "5"))]],
      [30, [("print", [("e", ("cell", "Q", [("num", "1"), ("num", "2"), ("num", "3")])), (";",), ("e", ("cell", "Q", [("num", "0"), ("num", "1"), ("num", "0")])), (";",), ("e", ("cell", "Q", [("num", "1"), ("num", "0"), ("num", "0")]))])]],
      [40, [("print", [("e", ("cell", "Q", [("num", "1"), ("num", "3"), ("num", "0")]))])]]],
+    # the GOSUB that overflows sits on another line than its target: the error belongs to the GOSUB's line
+    [[10, [("gosub", 100)]], [20, [("end",)]], [100, [("let", "N", [], ("bin", "+", ("var", "N"), ("num", "1")))]],
+     [110, [("print", [("e", ("var", "N")), (";",)])]], [120, [("gosub", 100)]]],
+    # a subscript too large in an EARLIER dimension whose offset still falls inside the array
+    [[10, [("dim", "A", [("num", "2"), ("num", "3")])]], [20, [("let", "A", [("num", "0"), ("num", "1")], ("num", "4"))]],
+     [30, [("let", "A", [("num", "3"), ("num", "0")], ("num", "7"))]], [40, [("print", [("e", ("cell", "A", [("num", "0"), ("num", "1")]))])]]],
 ]
 
 KIND = {"TypeMismatch": "TypeMismatch", "DivisionByZero": "DivisionByZero", "OutOfData": "OutOfData", "DataTypeMismatch": "DataTypeMismatch",
